@@ -384,6 +384,21 @@ def check_leaf(c):
             Zi = teneva.add(Yi, Yi)
             Mi = teneva.mul(Yi, Yi)
             oki = oki and np.array_equal(ref.dense(Zi), 2 * root.D) and np.array_equal(ref.dense(Mi), root.D * root.D)
+            # mixed dtypes: an integer-typed operand with a float tensor / a non-integer number, on either side
+            Pf = partners[1 % len(partners)]
+            for a_, b_, want_ in ((Yi, Pf.Y, root.D + Pf.D), (Pf.Y, Yi, Pf.D + root.D)):
+                oki = oki and np.abs(ref.dense(teneva.add(a_, b_)) - want_).max() <= 1e-12 * (1 + np.abs(want_).max())
+            oki = oki and np.abs(ref.dense(teneva.sub(Yi, Pf.Y)) - (root.D - Pf.D)).max() <= 1e-12 * (1 + np.abs(root.D - Pf.D).max())
+            oki = oki and np.abs(ref.dense(teneva.sub(Pf.Y, Yi)) - (Pf.D - root.D)).max() <= 1e-12 * (1 + np.abs(root.D - Pf.D).max())
+            oki = oki and np.abs(ref.dense(teneva.mul(Yi, 0.5)) - 0.5 * root.D).max() <= 1e-12 * (1 + np.abs(root.D).max())
+            oki = oki and np.abs(ref.dense(teneva.mul(-1.5, Yi)) + 1.5 * root.D).max() <= 1e-12 * (1 + np.abs(root.D).max())
+            oki = oki and np.abs(ref.dense(teneva.mul(Yi, Pf.Y)) - root.D * Pf.D).max() <= 1e-12 * (1 + np.abs(root.D * Pf.D).max())
+            oki = oki and np.abs(ref.dense(teneva.add(Yi, 0.5)) - (root.D + 0.5)).max() <= 1e-12 * (1 + np.abs(root.D).max())
+            oki = oki and np.abs(ref.dense(teneva.sub(0.25, Yi)) - (0.25 - root.D)).max() <= 1e-12 * (1 + np.abs(root.D).max())
+            oki = oki and abs(teneva.mul_scalar(Yi, Pf.Y) - float((root.D * Pf.D).sum())) <= 1e-12 * (1 + float(np.abs(root.D * Pf.D).sum()))
+            Am = teneva.add_many([Yi, Pf.Y, 0.5, Yi], e=1e-12)
+            wm = 2 * root.D + Pf.D + 0.5
+            oki = oki and np.abs(ref.dense(Am) - wm).max() <= 1e-9 * (1 + np.abs(wm).max())
             vst, pst = teneva.mul_scalar(Yi, Yi, use_stab=True)
             oki = oki and abs(vst * 2.0 ** pst - float((root.D * root.D).sum())) <= 1e-12 * (1 + float((root.D * root.D).sum()))
         res.check(bool(oki), 'int_typed_cores', case, 'integer-typed cores (int64) are not evaluated like the same values stored as floats', tags)
